@@ -613,17 +613,24 @@ func ruleDecodeSibling(p *Prog, r *Report, names []string) {
 		// the recursive call whose result is used (not the tail call)
 		var rc *ssa.Call
 		for _, c := range selfCalls(fn) {
+			// a tail call: its Map result goes nowhere but into a return (one call may serve the root, whose result is handed up,
+			// and the children, whose result is inserted)
 			isTail := false
+			otherUse := false
 			for _, ref := range *c.Referrers() {
-				if ex, ok := ref.(*ssa.Extract); ok {
+				if ex, ok := ref.(*ssa.Extract); ok && ex.Index == 0 {
 					for _, r2 := range *ex.Referrers() {
-						if _, ok := r2.(*ssa.Return); ok && ex.Index == 0 {
+						switch r2.(type) {
+						case *ssa.Return:
 							isTail = true
+						case *ssa.DebugRef:
+						default:
+							otherUse = true
 						}
 					}
 				}
 			}
-			if !isTail {
+			if !isTail || otherUse {
 				rc = c
 			}
 		}
